@@ -857,6 +857,66 @@ def _blacklist_model(r, fi, name, with_siblings, bl, loop, prov, where):
              % (' | sibling names' if with_siblings else '', sorted(want)), where)
 
 
+def _scrub_by_manager(r, idx, fi, name, with_siblings, managers, loop, cfg, a_nodes, s_nodes, head, sc, vscope):
+    """The black-listed names are removed by entering a context manager (`with Mgr(scope, names):`) whose __enter__ pops each
+    listed name from the very scope object; the student's evaluation must lie inside the with-body (the manager puts the names
+    back on exit)."""
+    if len(managers) != 1:
+        raise AnalysisError('%s: several scrubbing context managers' % name)
+    m = managers[0]
+    where = m.where
+    bl = m.names_arg
+    if not isinstance(bl, ast.Name):
+        r.undecided(name + ': deletion', 'names argument of the scrubbing manager is not a plain name: %s' % short(bl), where)
+        return
+    r.ok(name + ': deletion', 'entering `%s` removes every name of %s from %s' % (short(m.item.context_expr, 60), bl.id, vscope), where)
+    prov = fl.Prov(fi.node)
+    flows = _closure_exprs(prov, bl.id)
+    if any(lib.mentions_config(e, 'instructor_vars') for e in flows):
+        r.ok(name + ': black-list [instructor_vars]', "built from config['instructor_vars']", where)
+    else:
+        fl.absent(r, idx, name + ': black-list [instructor_vars]', "config['instructor_vars'] no longer flows into the black-list `%s`: "
+                  "instructor-only variables are never removed from the student's scope" % bl.id, where)
+    if with_siblings:
+        if any(fl.mentions(e, 'sibling_formulas') for e in flows):
+            r.ok(name + ': black-list [siblings]', 'contains the sibling variable names', where)
+        else:
+            fl.absent(r, idx, name + ': black-list [siblings]', 'the sibling variable names no longer flow into the black-list `%s`: a '
+                      'student can refer to sibling_N, i.e. to another input box, in this answer' % bl.id, where)
+    _blacklist_model(r, fi, name, with_siblings, bl.id, loop, prov, where)
+    inside = any(a is m.node for a in ancestors(sc)) and not any(sc is x for it in m.node.items for x in ast.walk(it.context_expr))
+    w_nodes = [n for n in cfg.nodes_of(m.node) if n.kind == 'with']
+    if inside:
+        r.ok(name + ': order', "the student's evaluation lies inside the with-body of the scrubbing manager", where)
+    else:
+        r.violation(name + ': order', "the student's evaluation is not inside the with-body of the scrubbing manager: on exit the manager "
+                    'puts the black-listed names back, so the student\'s input is evaluated with the instructor%s variables in scope'
+                    % ('/sibling' if with_siblings else ''), lib.loc(fi, sc), expected='with %s: <student evaluation>' % short(m.item.context_expr, 50))
+    if cfg.reaches([head], w_nodes, blocked=a_nodes, after=True):
+        r.violation(name + ': author first', 'the scrubbing manager can be entered before the author\'s expressions are evaluated: an '
+                    'answer that uses an instructor variable is no longer evaluable', where)
+    else:
+        r.ok(name + ': author first', 'the author\'s expressions are evaluated with the full scope', where)
+    back = []
+    between = set(fl.between_in_iteration(cfg, loop, w_nodes, s_nodes)) if inside else set()
+    for n in ast.walk(m.node):
+        writes = False
+        if isinstance(n, ast.Call) and isinstance(n.func, ast.Attribute) and fl.name_of(n.func.value) in (vscope, m.alias) \
+                and n.func.attr in ('update', 'setdefault', '__setitem__'):
+            writes = True
+        elif isinstance(n, ast.Assign) and any((isinstance(t, ast.Subscript) and fl.name_of(t.value) in (vscope, m.alias)) for t in n.targets):
+            writes = True
+        if writes:
+            nodes = set(cfg.nodes_containing(n) if not isinstance(n, ast.stmt) else cfg.nodes_of(n))
+            if nodes & between:
+                back.append(n)
+    if back:
+        r.violation(name + ': re-insertion', '`%s` refills the scope inside the with-body before the student\'s evaluation'
+                    % short(back[0]), lib.loc(fi, back[0]))
+    else:
+        r.ok(name + ': re-insertion', 'nothing writes to %s between entering the manager and the student\'s evaluation' % vscope, where)
+
+
 def d4_scrub(ctx, idx):
     r = ctx.rule('D4.SCRUB', 'instructor (and sibling) names are deleted from the variable scope after the author\'s and before the '
                  'student\'s evaluation, on every path, in all three gen_evaluations', floor=19)
@@ -873,7 +933,7 @@ def d4_scrub(ctx, idx):
             if loop is None or fl.enclosing_loop(ac, fi.node) is not loop:
                 r.undecided(name, 'author and student evaluations are not in one loop (see C04-D4)', lib.loc(fi, sc))
                 continue
-            scope = {k: n for k, n in scope_names(fi, [sc])}
+            scope = {k: n for k, n in scope_names(fi, [sc], idx)}
             vscope = scope.get('variables') or scope.get('varscope')
             if vscope is None or vscope.startswith('<'):
                 r.undecided(name + ': scope', 'variable scope of the student\'s evaluation is not a plain name', lib.loc(fi, sc))
@@ -893,7 +953,19 @@ def d4_scrub(ctx, idx):
                     dels.append((enclosing_stmt(n), n))
             other_dels = [n for n in ast.walk(loop) if isinstance(n, ast.Delete) and not any(n is d for d, _ in dels)
                           and any(isinstance(t, ast.Subscript) for t in n.targets)]
+            managers = [m for m in fl.scrub_managers(idx, fi, loop) if fl.name_of(m.scope_arg) == vscope]
+            if not dels and managers:
+                _scrub_by_manager(r, idx, fi, name, q == FGC, managers, loop, cfg, a_nodes, s_nodes, head, sc, vscope)
+                continue
             if not dels:
+                withs = [w for w in ast.walk(loop) if isinstance(w, ast.With) and
+                         (any(a is w for a in ancestors(sc)) or any(fl.mentions(it.context_expr, vscope) or
+                                                                    fl.name_of(it.optional_vars) == vscope for it in w.items))]
+                if withs and not other_dels:
+                    r.undecided(name + ': deletion', 'a context manager (`%s`) stands around the student\'s evaluation / receives the scope, '
+                                'but it could not be resolved to a class or @contextmanager whose entry removes the black-listed names'
+                                % short(withs[0].items[0].context_expr, 60), lib.loc(fi, withs[0]))
+                    continue
                 if other_dels:
                     t = other_dels[0].targets[0]
                     r.violation(name + ': deletion', 'names are deleted from `%s`, which is not the scope `%s` the student\'s input is '
@@ -1041,34 +1113,25 @@ def d5_scope(ctx, idx):
             nested = [x for x in ast.walk(t) if isinstance(x, ast.Raise)]
             tests.append((t, direct[-1] if direct else (None if not nested else nested[-1]), bool(direct)))
         for t, x, raises_directly in tests:
-            test = nf.subst(t.test, env)
-            e = test
-            while isinstance(e, ast.Call) and nf.callee_name(e) in ('set', 'list', 'sorted', 'len', 'bool') and e.args:
-                e = e.args[0]
-            if not (isinstance(e, (ast.GeneratorExp, ast.ListComp, ast.SetComp)) and len(e.generators) == 1
-                    and isinstance(e.generators[0].target, ast.Name)):
-                diff = None
-                for pn, (attr, _) in want.items():
-                    if nf.match('self.%s - set(%s)' % (attr, pn), e) is not None or \
-                            nf.match('self.%s.difference(%s)' % (attr, pn), e) is not None:
-                        diff = pn
-                if diff:
-                    found[diff] = (t, x if raises_directly else None, True)
+            view = fl.exists_view(t.test, env)
+            if view is None:
                 continue
-            g = e.generators[0]
-            v = g.target.id
+            seq, v, pred = view
+            seq_u, _ = fl.unwrap_seq(seq)
+            while isinstance(seq_u, ast.Call) and nf.callee_name(seq_u) in ('set', 'frozenset', 'sorted') and len(seq_u.args) == 1:
+                seq_u = seq_u.args[0]
             for pn, (attr, _) in want.items():
-                if nf.match('self.%s' % attr, g.iter) is not None and len(g.ifs) == 1:
-                    flt = nf.canon(g.ifs[0])
-                    if nf.match('%s not in %s' % (v, pn), flt) is not None:
-                        found[pn] = (t, x if raises_directly else None, True)
-                    elif nf.match('%s in %s' % (v, pn), flt) is not None:
-                        found[pn] = (t, x, 'the test is inverted (`%s`): names that ARE in the scope are reported and unknown names pass'
-                                     % unparse(g.ifs[0]))
-                    else:
-                        others = [o for o in want if o != pn and nf.match('%s not in %s' % (v, o), flt) is not None]
-                        if others:
-                            found[pn] = (t, x, 'the %s used are looked up in `%s` instead of `%s`' % (pn, others[0], pn))
+                if nf.match('self.%s' % attr, seq_u) is None:
+                    continue
+                if nf.match('%s not in %s' % (v, pn), pred) is not None:
+                    found[pn] = (t, x if raises_directly else None, True)
+                elif nf.match('%s in %s' % (v, pn), pred) is not None:
+                    found[pn] = (t, x, 'the test is inverted (`%s`): names that ARE in the scope are reported and unknown names pass'
+                                 % unparse(pred))
+                else:
+                    others = [o for o in want if o != pn and nf.match('%s not in %s' % (v, o), pred) is not None]
+                    if others:
+                        found[pn] = (t, x, 'the %s used are looked up in `%s` instead of `%s`' % (pn, others[0], pn))
         for pn, (attr, classes) in want.items():
             if pn not in found:
                 sev = r.violation if pn != 'suffixes' else r.undecided
@@ -1296,6 +1359,7 @@ BENIGN = [
            "        if _contains_any_ignoring_spaces(expression, forbidden_strings):\n            raise InvalidInput(forbidden_msg)\n    return True\n\ndef _contains_any_ignoring_spaces(text, substrings):\n    stripped_text = text.replace(' ', '')\n    return any(substring.replace(' ', '') in stripped_text for substring in substrings)\n"),
     Benign('limits-in-one-comprehension', IG, "        lower, lower_used = evaluator(lower_str,\n                                      variables=varscope,\n                                      functions=funcscope,\n                                      suffixes=self.suffixes,\n                                      allow_inf=True)\n        upper, upper_used = evaluator(upper_str,\n                                      variables=varscope,\n                                      functions=funcscope,\n                                      suffixes=self.suffixes,\n                                      allow_inf=True)\n        expression_used = parse(expression)\n        \n        used_funcs = lower_used.functions_used.union(upper_used.functions_used, expression_used.functions_used)\n",
            "        (lower, lower_used), (upper, upper_used) = [evaluator(limit_str, variables=varscope, functions=funcscope, suffixes=self.suffixes, allow_inf=True) for limit_str in (lower_str, upper_str)]\n        used_funcs = set().union(lower_used.functions_used, upper_used.functions_used, parse(expression).functions_used)\n"),
+    Benign('bad-vars-set-difference', EXPR, "bad_vars = set(var for var in self.variables_used if var not in variables)", "bad_vars = set(self.variables_used).difference(variables)"),
     Benign('check-scope-keywords', EXPR, "        self.check_scope(variables, functions, suffixes)\n\n        # metadata_dict",
            "        self.check_scope(functions=functions, variables=variables, suffixes=suffixes)\n\n        # metadata_dict"),
 ]
@@ -1327,6 +1391,8 @@ def thorough(ctx):
                     lp = fl.enclosing_loop(n, fi.node)
                     if lp is not None and lp is not loop:
                         d_nodes |= set(cfg.nodes_of(lp))
+            for m in fl.scrub_managers(idx, fi, loop):
+                d_nodes |= {n for n in cfg.nodes_of(m.node) if n.kind == 'with'}
             total = bad = 0
             truncated = False
             for a in a_nodes:
